@@ -362,7 +362,16 @@ func reply4(x uint32, class byte, idx int, op dhcpv4.OpcodeType, hw net.Hardware
 	case 7:
 		pad(1499)
 	}
-	return p.ToBytes()
+	b := p.ToBytes()
+	if idx%8 == 3 && len(hw) > 0 && len(hw) < 16 {
+		// octets of the chaddr field beyond hlen are padding: senders other than this
+		// library's encoder leave anything there, and it is no criterion for the client
+		// (seeded change C12-18: a pre-filter comparing all 16 octets of chaddr)
+		for i := 28 + len(hw); i < 44; i++ {
+			b[i] = 0xa0 | byte(i&0xf)
+		}
+	}
+	return b
 }
 
 func reply6(x uint32, class byte, idx int) []byte {
